@@ -41,6 +41,16 @@ type Writer struct {
 	closes  map[uint64]int
 	FailAck bool // WriteStreamOpenAck returns an error
 	Events  []string
+	// AckDelay makes WriteStreamOpenAck slow (a busy peer link): the acknowledgement counts
+	// as written only when the call returns.
+	AckDelay time.Duration
+	// OnAck runs inside WriteStreamOpenAck, after the acknowledgement was recorded and
+	// before the call returns (a peer that reacts at once to the acknowledgement).
+	OnAck func(peerID identity.AgentID, streamID uint64)
+	// DataBeforeAck lists streams for which data was written before their acknowledgement
+	// (an ingress drops such frames: the stream is not registered yet).
+	DataBeforeAck []uint64
+	acked         map[uint64]bool
 }
 
 func NewWriter() *Writer {
@@ -54,6 +64,9 @@ func (w *Writer) SetFailAck(v bool) { w.mu.Lock(); w.FailAck = v; w.mu.Unlock() 
 
 func (w *Writer) WriteStreamData(peerID identity.AgentID, streamID uint64, data []byte, flags uint8) error {
 	w.mu.Lock()
+	if w.acked != nil && !w.acked[streamID] && len(w.data[streamID]) == 0 {
+		w.DataBeforeAck = append(w.DataBeforeAck, streamID)
+	}
 	w.data[streamID] = append(w.data[streamID], DataMsg{append([]byte(nil), data...), flags})
 	w.cond.Broadcast()
 	w.mu.Unlock()
@@ -62,14 +75,45 @@ func (w *Writer) WriteStreamData(peerID identity.AgentID, streamID uint64, data 
 
 func (w *Writer) WriteStreamOpenAck(peerID identity.AgentID, streamID uint64, requestID uint64, boundIP net.IP, boundPort uint16, eph [32]byte) error {
 	w.mu.Lock()
-	defer w.mu.Unlock()
+	delay, onAck := w.AckDelay, w.OnAck
+	w.mu.Unlock()
+	if delay > 0 {
+		time.Sleep(delay)
+	}
+	w.mu.Lock()
 	w.replies[streamID] = append(w.replies[streamID], Reply{Ack: true, BoundIP: boundIP, BoundPort: boundPort, EphPub: eph, RequestID: requestID, Peer: peerID})
 	w.Events = append(w.Events, fmt.Sprintf("ack(%d)", streamID))
+	if w.acked != nil {
+		w.acked[streamID] = true
+	}
+	fail := w.FailAck
 	w.cond.Broadcast()
-	if w.FailAck {
+	w.mu.Unlock()
+	if onAck != nil {
+		onAck(peerID, streamID)
+	}
+	if fail {
 		return fmt.Errorf("zzharn: ack write failed")
 	}
 	return nil
+}
+
+// TrackAckOrder makes the writer record streams whose first data frame precedes their
+// acknowledgement.
+func (w *Writer) TrackAckOrder() { w.mu.Lock(); w.acked = map[uint64]bool{}; w.mu.Unlock() }
+
+// Set changes AckDelay / OnAck under the writer's lock.
+func (w *Writer) Set(delay time.Duration, onAck func(identity.AgentID, uint64)) {
+	w.mu.Lock()
+	w.AckDelay, w.OnAck = delay, onAck
+	w.mu.Unlock()
+}
+
+// EarlyData returns the streams recorded by TrackAckOrder.
+func (w *Writer) EarlyData() []uint64 {
+	w.mu.Lock()
+	defer w.mu.Unlock()
+	return append([]uint64(nil), w.DataBeforeAck...)
 }
 
 func (w *Writer) WriteStreamOpenErr(peerID identity.AgentID, streamID uint64, requestID uint64, code uint16, msg string) error {
